@@ -194,8 +194,13 @@ int main(void)
 	ASSUME(IN.flip_byte < 8);
 	for (i = 0; i < 8; i++)
 		if ((unsigned) i == IN.flip_byte) vf_uf_hdr[i] ^= (unsigned char) (1 << IN.flip_bit);
-#elif DAMAGE == 2	/* any header field behind the magic (the crc stub folds the first 96 bytes), or the crc field itself */
-	ASSUME((IN.flip_byte >= 8 && IN.flip_byte < 72) || (IN.flip_byte >= 508 && IN.flip_byte < 512));
+#elif DAMAGE == 2 || DAMAGE == 7
+	/* header crc mismatch.  DAMAGE=2: a bit of sb_crc/state/f_compat/fs_offset or of the crc field itself; DAMAGE=7 (thorough): a bit of the structural fields num_keys..fs_block_size */
+#if DAMAGE == 2
+	ASSUME((IN.flip_byte >= 40 && IN.flip_byte < 52) || (IN.flip_byte >= 64 && IN.flip_byte < 72) || (IN.flip_byte >= 508 && IN.flip_byte < 512));
+#else
+	ASSUME(IN.flip_byte >= 8 && IN.flip_byte < 40);
+#endif
 	for (i = 8; i < 72; i++)
 		if ((unsigned) i == IN.flip_byte) vf_uf_hdr[i] ^= (unsigned char) (1 << IN.flip_bit);
 	for (i = 508; i < 512; i++)
@@ -265,6 +270,7 @@ int main(void)
 	vf_chan.block_size = TDS;
 	vf_rchan.block_size = TDS;
 	vf_real_reads = 0;
+	vf_light = 1;	/* STUB: during the follow-up write the header / superblock copies are not modelled (index harness) */
 	rc = undo_write_blk64(&vf_chan, IN.wblock, 1, kbuf);
 	PROP(rc == 0, "follow-up write succeeds");
 	PROP(vf_real_ops == 1 && vf_wlo == (unsigned long long) IN.wblock * TDS, "follow-up write reaches the device");
